@@ -299,7 +299,7 @@ Proof. intros [L1 L2 L3 L4 L5 L6 L7]. split; assumption. Qed.
 Theorem LInv_step s ev : InvM s -> InvR s -> LInv s -> LInv (step s ev).
 Proof.
   intros [HM HP] [G HR] HL. pose proof HL as [L1 L2 L3 L4 L5 L6 L7].
-  destruct ev as [sums rolls tm|t| |x roll|ins outs roll hold| |r|r| | |ok| ]; cbn [step].
+  destruct ev as [sums rolls tm|t| |x roll|j ins outs roll hold|j|r|r| | |ok| ]; cbn [step].
   - (* EOpen *)
     destruct (s_p s) as [p|] eqn:Ep; [exact HL|].
     match goal with |- LInv (if ?c then _ else _) => destruct c eqn:Eacc end; [|exact HL].
@@ -480,28 +480,28 @@ Proof.
     destruct (s_p s) as [p|] eqn:Ep; [|exact HL].
     match goal with |- LInv (if ?c then _ else _) => destruct c eqn:Ec end; [|exact HL].
     apply andb_prop in Ec. destruct Ec as [Ec _]. apply andb_prop in Ec. destruct Ec as [Er Ebusy].
-    apply LInv_spawn; auto; try discriminate.
-    + unfold busy in Ebusy. destruct (pc_get T_COMPACT p); [reflexivity|discriminate].
-    + intros n. apply worker_no_rename. exact (proj1 (worker_ok_compaction ins outs roll hold)).
+    apply LInv_spawn; auto; try apply T_COMPACT_not_main; try apply T_COMPACT_not_flush.
+    + unfold busy in Ebusy. destruct (pc_get (T_COMPACT j) p); [reflexivity|discriminate].
+    + intros n. apply worker_no_rename. exact (proj1 (worker_ok_compaction (H_COMPACT j) ins outs roll hold)).
   - (* EMove *)
     destruct (s_p s) as [p|] eqn:Ep; [|exact HL].
     match goal with |- LInv (if ?c then _ else _) => destruct c eqn:Ec end; [|exact HL].
     apply andb_prop in Ec. destruct Ec as [Er Ebusy].
-    apply LInv_spawn; auto; try discriminate.
-    + unfold busy in Ebusy. destruct (pc_get T_COMPACT p); [reflexivity|discriminate].
+    apply LInv_spawn; auto; try apply T_COMPACT_not_main; try apply T_COMPACT_not_flush.
+    + unfold busy in Ebusy. destruct (pc_get (T_COMPACT j) p); [reflexivity|discriminate].
     + intros n [H|[]]. discriminate.
   - (* ETake *)
     destruct (s_p s) as [p|] eqn:Ep; [|exact HL].
     match goal with |- LInv (if ?c then _ else _) => destruct c eqn:Ec end; [|exact HL].
     apply andb_prop in Ec. destruct Ec as [Ec _]. apply andb_prop in Ec. destruct Ec as [Er Ebusy].
-    apply LInv_spawn; auto; try (unfold T_READER, T_MAIN, T_FLUSH; lia).
+    apply LInv_spawn; auto; try apply T_READER_not_main; try apply T_READER_not_flush.
     + unfold busy in Ebusy. destruct (pc_get (T_READER r) p); [reflexivity|discriminate].
     + intros n [H|[]]. discriminate.
   - (* EDrop *)
     destruct (s_p s) as [p|] eqn:Ep; [|exact HL].
     match goal with |- LInv (if ?c then _ else _) => destruct c eqn:Ec end; [|exact HL].
     apply andb_prop in Ec. destruct Ec as [Er Ebusy].
-    apply LInv_spawn; auto; try (unfold T_READER, T_MAIN, T_FLUSH; lia).
+    apply LInv_spawn; auto; try apply T_READER_not_main; try apply T_READER_not_flush.
     + unfold busy in Ebusy. destruct (pc_get (T_READER r) p); [reflexivity|discriminate].
     + intros n [H|[]]. discriminate.
   - (* ECrash *)
